@@ -17,8 +17,9 @@ SpecL5 == Bounded(5)
 SpecL6 == Bounded(6)
 View == fog
 ViewHist == <<fog, hist>>
-Obs == [fog |-> fog,
-        nu |-> {[q |-> q, acc |-> AcceptNU(fog, q), mirror |-> NearestUnknown(fog, q)] : q \in QueryKeys},
-        nr |-> {[q |-> q, acc |-> AcceptNR(fog, q)] : q \in QueryKeys}]
-Emit == PrintT(ToJson([h |-> hist', st |-> Obs']))
+ObsOf(f) == [fog |-> f,
+             nu |-> {[q |-> q, acc |-> AcceptNU(f, q), mirror |-> NearestUnknown(f, q)] : q \in QueryKeys},
+             nr |-> {[q |-> q, acc |-> AcceptNR(f, q)] : q \in QueryKeys}]
+Emit == PrintT(ToJson([h |-> hist', st |-> ObsOf(fog')]))
+EmitSt == PrintT(ToJson([h |-> hist, st |-> ObsOf(fog)]))
 =============================================================================
